@@ -25,6 +25,12 @@ void module_constructor(const char *name)
         for (tok = strtok_r(buf, ",", &save); tok; tok = strtok_r(NULL, ",", &save))
             module_depends(strdup(tok), NULL);     /* the name must outlive this call: module.c keeps the pointer */
     }
+    deps = getenv("STUBANTI_" STUBNAME);       /* modules this one is a back-end provider for (module_antidepends) */
+    if (deps) {
+        snprintf(buf, sizeof buf, "%s", deps);
+        for (tok = strtok_r(buf, ",", &save); tok; tok = strtok_r(NULL, ",", &save))
+            module_antidepends(strdup(tok), NULL);
+    }
     logev("CE");
 }
 
